@@ -65,6 +65,7 @@ fn main() {
                         threads: env_u64("HSIM_THREADS", 16) as usize,
                         runs_override: std::env::var("HSIM_RUNS").ok().and_then(|v| v.parse().ok()),
                         wall_override: std::env::var("HSIM_WALL").ok().and_then(|v| v.parse().ok()),
+                        out_dir: std::env::var("HSIM_OUT_DIR").unwrap_or_else(|_| verif_dir.clone()),
                         verif_dir,
                     };
                     batch::run_batch(&cfg, &spec)
